@@ -54,6 +54,8 @@ def build_log(rng, cluster, small, big=False, stats=None):
     v = 0
     if rng.random() < 0.3:
         c.log_of(TOPIC, 0).skip(rng.randrange(1, 5))
+    oversize = (not big) and (not small) and rng.random() < 0.15   # one message larger than the initial buffer, in any run
+    over_seg = rng.randrange(n_seg) if oversize else -1
     for seg in range(n_seg):
         k = rng.randrange(1, 5)
         vals = []
@@ -62,6 +64,9 @@ def build_log(rng, cluster, small, big=False, stats=None):
             if seg == big_seg and j == 0:
                 vals.append(bytes([97 + v % 26]) * rng.choice([600, 2000, 5000, 20000]))
                 stats["big"] = stats.get("big", 0) + 1
+            elif seg == over_seg and j == 0:
+                vals.append(bytes([97 + v % 26]) * rng.choice([5000, 9000]))
+                stats["larger_than_buffer"] = stats.get("larger_than_buffer", 0) + 1
             elif r < 0.08:
                 vals.append(None)
             elif r < 0.16:
@@ -88,7 +93,10 @@ def build_log(rng, cluster, small, big=False, stats=None):
             for _ in range(k):
                 offs.append(o)
                 o += rng.choice([1, 2, 4])
-            c.append(TOPIC, 0, vals, keys=keys, magic=1, codec="gzip", offsets=offs)
+            # (a v0 wrapper carries absolute inner offsets: a compacted one has gaps too)
+            mg = rng.choice([1, 1, 0])
+            c.append(TOPIC, 0, vals, keys=keys, magic=mg, codec="gzip", offsets=offs)
+            stats["wrapper_with_gaps_v%d" % mg] = stats.get("wrapper_with_gaps_v%d" % mg, 0) + 1
         else:
             c.append(TOPIC, 0, vals, keys=keys, magic=rng.choice([0, 1]))
         if kind in (2, 3) or (kind == 4 and k >= 2):
@@ -110,7 +118,8 @@ def gen_spec(rng):
         "auto_n": rng.choice([0, 1, 2, 3]),
         "behaviour": rng.choice(["sync", "sync", ["async", 0.05], ["async", 0.4]]),
         "start": rng.choice(["earliest", "earliest", "zero", "inside", "latest", "committed"]),
-        "faults": [rng.choice(["none", "none", "error6", "error3", "error7", "drop_after", "drop_before", "leader_move", "delay"])
+        "faults": [rng.choice(["none", "none", "error6", "error3", "error7", "drop_after", "drop_before", "leader_move", "delay",
+                               "bounce_newaddr", "leader_down"])
                    for _ in range(rng.randrange(0, 3))],
         "script": rng.choice(["run", "run", "stop-restart", "shutdown-restart", "commit-stop-resume", "stop-early"]),
         "api_versions": rng.choice(["default", "default", "old"]),
@@ -123,6 +132,19 @@ def gen_spec(rng):
         # (a commit by another member that owned the partition meanwhile / a commit whose reply was lost)
         "foreign_commit": rng.random() < 0.5,
     }
+
+
+def gen_outage_spec(rng):
+    """The group coordinator (a broker other than the partition leader) hangs with a commit in flight and dies; the
+    commit times out in the client and is retried - by then with a later offset - at the broker that took the group
+    over; later the old broker comes back and is the coordinator again.  What the consumer was told is committed must
+    be what the coordinator holds."""
+    spec = gen_spec(rng)
+    spec.update(brokers=rng.choice([2, 3]), group=True, auto_n=rng.choice([1, 1, 2]), behaviour="sync", faults=[], script="coord-outage",
+                start=rng.choice(["earliest", "zero"]), group_fault=None, prestored=False, foreign_commit=False, api_versions="default",
+                outage={"hang_at": rng.choice([1.0, 1.25]), "dies_after": rng.choice([0.5, 0.75, 1.0]), "back_after": rng.choice([3.5, 4.0, 5.0]),
+                        "first": rng.choice([1, 2, 3]), "second": rng.choice([1, 2, 4])})
+    return spec
 
 
 def gen_growth_spec(rng):
@@ -186,6 +208,13 @@ def run_spec(spec):
             c.offsets[("g", TOPIC, 0)] = dict(t=0.0, group="g", topic=TOPIC, partition=0, offset=pre, metadata="", generation=-1,
                                               member="", broker=c.coordinator_of("g"), conn=None, corr=None)
             out["prestored"] = pre
+        outage = spec.get("outage") if spec["script"] == "coord-outage" else None
+        coord = None
+        if outage:
+            lead = c.leader_of(TOPIC, 0)
+            coord = rng.choice([b for b in c.alive_ids() if b != lead])
+            c.set_coordinator("g", coord)
+            out["outage_coordinator"] = coord
         co = make_consumer(cl, TOPIC, 0, rec, name="c", behaviour=behaviour, **kw)
         out["committed_at_start"] = {"start#1": c.committed("g", TOPIC, 0) if spec["group"] else None}
         out["lc_samples"] = []
@@ -194,6 +223,8 @@ def run_spec(spec):
         step = 0.25
         script = spec["script"]
         moved = False
+        bounced = False
+        downed = False
         restarted = False
         phase = 1
         t = 0.0
@@ -207,6 +238,41 @@ def run_spec(spec):
                 others = [b for b in c.alive_ids() if b != cur]
                 if others:
                     c.move_leader(TOPIC, 0, rng.choice(others))
+            if outage:
+                # phases: 1 running -> 11 coordinator hangs -> 12 new messages (their commit is swallowed) -> 13 the hung
+                # broker dies (the group fails over) -> 14 more messages -> 15 the old broker is back and coordinator again
+                t0 = outage["hang_at"]
+                if phase == 1 and t >= t0:
+                    c.brokers[coord].silent = True
+                    phase = 11
+                elif phase == 11 and t >= t0 + 0.25:
+                    c.append(TOPIC, 0, [b"o%d" % i for i in range(outage["first"])])
+                    phase = 12
+                elif phase == 12 and t >= t0 + 0.25 + outage["dies_after"]:
+                    c.kill_broker(coord)
+                    phase = 13
+                elif phase == 13 and t >= t0 + 0.5 + outage["dies_after"]:
+                    c.append(TOPIC, 0, [b"p%d" % i for i in range(outage["second"])])
+                    phase = 14
+                elif phase == 14 and t >= t0 + 0.5 + outage["dies_after"] + outage["back_after"]:
+                    c.brokers[coord].silent = False
+                    c.start_broker(coord)
+                    c.move_coordinator("g", coord)
+                    phase = 15
+            if "bounce_newaddr" in spec["faults"] and not bounced and t >= 0.75 and spec["brokers"] > 1:
+                # the partition leader is restarted and comes back at a NEW address (the old one refuses): the client has to
+                # learn the address from fresh metadata (served by another broker: with a single broker nobody could tell it)
+                bounced = True
+                cur = c.leader_of(TOPIC, 0)
+                if cur is not None and cur != -1:
+                    c.restart_broker(cur, port=c.brokers[cur].port + 1000)
+            if "leader_down" in spec["faults"] and not downed and t >= 1.0 and spec["brokers"] > 1:
+                # the leader dies with a fetch parked at it; another replica takes over (and the group, if it coordinated it)
+                downed = True
+                cur = c.leader_of(TOPIC, 0)
+                others = [b for b in c.alive_ids() if b != cur]
+                if others and cur is not None and cur != -1:
+                    c.move_leader(TOPIC, 0, rng.choice(others), old="down")
             if script == "stop-early" and phase == 1 and t >= 0.25:
                 rec.call("stop#1", co.stop)
                 out["t_stop1"] = c.clock.seconds()
@@ -257,6 +323,8 @@ def run_spec(spec):
                                 if "Consumer" in repr(getattr(dc.func, "__qualname__", "")) or "LoopingCall" in repr(dc.func)]
         rec.call("close", cl.close)
         c.advance(1.0)
+    if outage:
+        out["truth"] = [(m[0], m[1], m[2]) for m in c.log_of(TOPIC, 0).messages()]  # messages were appended during the run
     out["violations"] = [(v["what"], str(v["error"])[:80]) for v in c.violations]
     out["events"] = rec.events
     out["requests"] = [e for e in c.log if e.get("kind") == "request" and e.get("client_id") == cl.clientId]
@@ -428,6 +496,24 @@ def analyse(spec, out):
                 probs.append(("C03", "last_committed_offset = %s at t=%.2f but the coordinator never acknowledged that offset (acknowledged: %s; stored now: %s)"
                               % (lc, ts, sorted({o for _, o in acks})[-4:], out["stored"])))
                 break
+        # one consumer, one run, no other writer: what the coordinator applies never goes backwards, and what the consumer
+        # was told is committed is what the coordinator holds in the end
+        if spec["script"] == "coord-outage":
+            applied = []
+            for r in sorted(reqs, key=lambda r: r["n"]):
+                try:
+                    if r["api"] == "OffsetCommit" and r.get("response") and r["response"]["topics"][0]["partitions"][0]["error_code"] == 0:
+                        applied.append(r["request"]["topics"][0]["partitions"][0]["offset"])
+                except (KeyError, IndexError, TypeError):
+                    continue
+            back = [(a, b) for a, b in zip(applied, applied[1:]) if b < a]
+            if back:
+                probs.append(("C03", "the coordinator applied a commit of offset %d AFTER it had acknowledged offset %d to this consumer (one run, no restart): "
+                              "applied in order %s" % (back[0][1], back[0][0], applied[-6:])))
+            if out["last_committed"] is not None and out["stored"] != out["last_committed"]:
+                probs.append(("C03", "after the run last_committed_offset = %s but the group's stored offset is %s (no other writer): a consumer "
+                              "started from the committed position would %s" % (out["last_committed"], out["stored"],
+                                                                                "get messages again" if (out["stored"] or -1) < out["last_committed"] else "skip messages")))
         # a start from the committed offset asks for the message after the stored offset
         issued = {e["label"]: e["n"] for e in evs if e["kind"] == "issued" and e.get("label", "").startswith("start#")}
         for label, stored in (out.get("committed_at_start") or {}).items():
@@ -489,6 +575,8 @@ def run_stage(ctx, res, pid, n, gen=None, mine=None, label="fullstack"):
             res.count("fullstack:foreign-commit-before-restart")
         for f in spec["faults"]:
             res.count("fullstack:fault=" + f)
+        if spec.get("group_fault") and spec["group"]:
+            res.count("fullstack:coordinator-error=%s:%d" % tuple(spec["group_fault"]))
         res.count("fullstack:delivered", sum(len(e["offsets"]) for e in out["events"] if e["kind"] == "proc"))
         lines_all.append(lines)
         metas.append((spec, probs, names, len(lines)))
